@@ -143,8 +143,8 @@ def run_codec(pid, fmts, tier, seed):
     # ---- 1. design level: exhaustive TLC run of the abstract document store
     res = tlc.must_pass("CodecMC", timeout=900)
     run.set(states=res["distinct"], transitions=res["states_generated"], tlc_depth=res["depth"],
-            tlc_invariants=["SpecPreserves", "SpecFixpoint", "ImplStable", "DivergenceListed", "OAStrength2"])
-    design = {}
+            tlc_invariants=["SpecPreserves", "SpecFixpoint", "SpecRefusal", "ImplStable", "ImplChain", "ImplNeverLosesSilently"],
+            tlc_assumptions=["DivergentVC/DivergentKC pins per format", "OAStrength2", "DimSizesFit"])
     for line in res["out"].splitlines():
         if "DESIGN-DIVERGENCE" in line:
             run.set(design_divergence=line.strip()[:400])
@@ -207,6 +207,10 @@ def run_codec(pid, fmts, tier, seed):
                             "focus_observed": label(ans["focus"]), "impl_predicts": label(ans["impl"])})
         run.set(verdicts=per_verdict, rows_enumerated=len(rows))
 
+        PLAIN_LABELS.clear()
+        for r, rec, ans in zip(live, recs, answers):
+            if r["kc"] == "key_plain":
+                PLAIN_LABELS.setdefault((r["fmt"], r["vc"]), set()).add(label(ans["focus"]))
         # ---- 5. signatures: configuration class by differential re-runs
         attribute(run, ses, bad, drift)
         if drift:
@@ -296,11 +300,16 @@ def attribute(run, ses, bad, drift):
             run.violation(cause_sig(m[0], m[2], k[3], {}, m[1]), detail(m[0], m[1], m[2]))
 
 
+PLAIN_LABELS = {}     # (fmt, value class) -> labels observed for that value class under a plain key in this run
+
+
 def focus_part(r, ans):
     """Which half of the focus entry the behaviour belongs to, according to the implementation model:
     the value (same prediction under a plain key), the key (same prediction for a plain text), or both."""
     d = {"focus": label(ans["focus"]), "impl_predicts": label(ans["impl"]), "impl_agrees": bool(ans["agrees"])}
-    if ans["by_value"] and not ans["by_key"]:
+    if (ans["by_value"] and not ans["by_key"]) or (not ans["by_key"] and not ans["by_value"]
+                                                   and label(ans["focus"]) in PLAIN_LABELS.get((r["fmt"], r["vc"]), ())):
+        # the same happens to this value class under a plain key: the key class is not part of the configuration
         d["vc"], d["value_domain"] = r["vc"], ans["vdom"]
     elif ans["by_key"] and not ans["by_value"]:
         d["kc"], d["key_domain"] = r["kc"], ans["kdom"]
@@ -332,7 +341,7 @@ def cause_sig(r, ans, sym, cause, rec):
 
 
 def detail(r, rec, ans):
-    d = {"row": {k: r[k] for k in ROWKEYS}, "stage": rec["stage"], "exception": rec["exc"], "message": rec.get("_msg", ""),
+    d = {"row": dict({k: r[k] for k in ROWKEYS}, n=r.get("n", 0)), "stage": rec["stage"], "exception": rec["exc"], "message": rec.get("_msg", ""),
          "failing_clauses": sorted(ans["failing"]), "allowed": sorted(ans["allowed"]), "verdict": ans["verdict"],
          "focus_observed": ans["focus"], "impl_predicts": ans["impl"], "id_equal": ans["id_equal"], "id_obliged": ans["id_obliged"]}
     if rec["before"]["cls"] == "point":
@@ -343,3 +352,29 @@ def detail(r, rec, ans):
         fa = [e for e in rec["after"]["meta"] if e["k"] == rec["focus"]]
         d["focus_entry"] = {"before": fb[:1], "after": fa[:1]}
     return d
+
+
+def replay_file(pid, path):
+    """./check CNN --replay replays/CNN-xxxx.json : re-run the recorded row on the real code and let TLC judge it again."""
+    import json
+    quiet_pygaps()
+    with open(path) as f:
+        rep = json.load(f)
+    row = dict(rep["detail"]["row"])
+    run = Run(pid, rep.get("tier", "quick"), rep.get("seed", 0), "exploration")
+    ses = Session(run, rep.get("seed", 0))
+    try:
+        rec = ses.observe(row)
+        if "skip" in rec:
+            print(f"[{pid}] replay: the isotherm of the row cannot be built ({rec['skip']})")
+            return 2
+        ans = judge_batch([rec])[0]
+    finally:
+        ses.close()
+    print(f"[{pid}] replay {os.path.basename(path)}: row={ {k: row[k] for k in ROWKEYS} }")
+    print(f"  stage={rec['stage']} exception={rec['exc'] or '-'} verdict={ans['verdict']} allowed={sorted(ans['allowed'])} failing={sorted(ans['failing'])} "
+          f"focus_observed={label(ans['focus'])} impl_predicts={label(ans['impl'])}")
+    if not ans["ok"]:
+        print(f"VIOLATION property={pid} replay={path}")
+        return 1
+    return 0
